@@ -100,8 +100,10 @@ func (i *rwInterceptor) flushWriteHeader() {
 
 // cleanHeaders removes all headers from the response
 func (i *rwInterceptor) cleanHeaders() {
-	for k := range i.w.Header() {
-		i.w.Header().Del(k)
+	// delete from the map itself: Header.Del canonicalises the key and would miss one stored as-is
+	h := i.w.Header()
+	for k := range h {
+		delete(h, k)
 	}
 }
 
